@@ -45,3 +45,27 @@
         normalize_scalar(&mut q[1..], off);
         assert!(q == p);
     }
+
+    /// C13.gate / C01.lze.keep / C17.sites: LZEncoder::new: the window bookkeeping the encoder's decisions rest on:
+    /// keep_size_before = extra_before + dict (history that must stay addressable), keep_size_after = extra_after +
+    /// match_len_max (look-ahead that must be present before a position may be consumed - this is what makes the
+    /// encoder's choices independent of how the caller split its writes), buffer = get_buf_size(..) bytes, empty window.
+    #[kani::proof]
+    #[kani::unwind(4)]
+    fn c13_lz_encoder_new() {
+        let eb: u32 = vk::any();
+        let ea: u32 = vk::any();
+        let nice: u32 = vk::any();
+        let hc: bool = vk::any();
+        vk::assume(eb <= 4096 && ea <= 4096 && nice >= 8 && nice <= 273);
+        let dict: u32 = 4096;
+        let e = core::mem::ManuallyDrop::new(if hc { LZEncoder::new_hc4(dict, eb, ea, nice, 273, 0) } else { LZEncoder::new_bt4(dict, eb, ea, nice, 273, 0) });
+        assert!(e.data.keep_size_before == eb + dict);
+        assert!(e.data.keep_size_after == ea + 273);
+        assert!(e.data.buf_size as u64 == vk::spec_buf_size(dict, eb, ea, 273) && e.data.buf.len() == e.data.buf_size);
+        assert!(e.data.buf_limit_u16 + 2 == e.data.buf_size);
+        assert!(e.data.match_len_max == 273 && e.data.nice_len == nice);
+        assert!(e.data.read_pos == -1 && e.data.read_limit == -1 && e.data.write_pos == 0 && e.data.pending_size == 0 && !e.data.finishing);
+        assert!(!e.data.is_started());
+        assert!(e.matches.count == 0 && e.matches.len.len() == nice as usize - 1 && e.matches.dist.len() == nice as usize - 1);
+    }
